@@ -5,6 +5,7 @@ CONSTANTS
  MaxTicket = 8
  MaxStale = 1
  MaxExh = 1
+ MaxReins = 0
  AllowRemove = FALSE
  Dev = {}
 PROPERTY Live
